@@ -28,6 +28,7 @@ TOY = [
     ('lostwake', [], 2, r'lost wake-up'),
     ('spin', [], 3, None),
     ('pollers', [], 3, None),
+    ('stalepost', [], 3, None),            # an iteration that slept in the kernel is never parked as a no-op spin
 ]
 FAIRNESS = [   # (family, program, P, E): must finish with no violation and no horizon hit
     ('mu', 'L|L|L', 3, 0),                          # version-counter park rule raised a bogus deadlock here
